@@ -52,6 +52,9 @@ pub fn explore(opts: &Opts) -> Explored {
         (OpK::Powf(1.5), 2),
         (OpK::Ln, 2),
         (OpK::Ln, 0),
+        (OpK::Ln, 6),
+        (OpK::Powf(0.5), 6),
+        (OpK::Scale(3.0), 6),
         (OpK::Exp, 3),
         (OpK::Recip, 3),
         (OpK::Recip, 0),
@@ -94,6 +97,11 @@ pub fn explore(opts: &Opts) -> Explored {
                     1 => vals_signed(n, 0, var),
                     2 => vals_small(n, 0, var),
                     3 => vals_small_signed(n, 0, var),
+                    6 => {
+                        // small and tiny positive magnitudes
+                        let tiny = if IS_F32 { [1.0e-3, 1.0e-7, 0.25, 1.0e-12, 1.0e-20, 3.0e-30, 0.9990234375, 1.0e-36] } else { [1.0e-3, 1.0e-7, 0.25, 1.0e-12, 1.0e-17, 3.0e-100, 0.9990234375, 1.0e-300] };
+                        (0..n).map(|i| tiny[(i + var as usize) % tiny.len()]).collect()
+                    }
                     5 => {
                         // last-dimension rows at very different levels (each exponential still finite)
                         let last = *d.last().unwrap();
